@@ -1,20 +1,20 @@
 CONSTANTS
- Topics = {"u","t:u"}
- Groups = {"g","g:t"}
- ColonNames = {"t:u","g:t"}
+ Topics = {"u"}
+ Groups = {"g"}
+ ColonNames = {}
  SlashNames = {}
  PercentNames = {}
  DeadVariants = {3}
  MaxParts = 2
  Offs = {1}
  Metas = {"m"}
- Variants = {1,3}
+ Variants = {1}
  TimeoutVariants = {1}
  CfgVariants = {1}
- ToolNames = {"cluster_status","cluster_metrics","list_topics","describe_topics","list_groups","describe_group","fetch_offsets","describe_configs"}
- ToolShapes = {"none","known","unknown","special","empty","many"}
- InitTopics <- ToolTopics2
- MaxOps = 3
+ ToolNames = {"fetch_offsets"}
+ ToolShapes = {"known"}
+ InitTopics <- NoTopics
+ MaxOps = 2
  DevKeyAliasing = FALSE
  DevDeleteKeepsOffsets = FALSE
  DevCloneDropsTimeouts = FALSE
@@ -23,15 +23,15 @@ CONSTANTS
  DevFetchDefaultZero = FALSE
  DevCommitUnchecked = FALSE
  DevToolWrites = FALSE
- DevToolReaps = TRUE
+ DevToolReaps = FALSE
  DevEscapeFastPath = FALSE
  DevEtcdDeletePrefix = FALSE
  DevStaleNextOffset = FALSE
- DevGrowSameCountOk = FALSE
+ DevGrowSameCountOk = TRUE
  DevToolPersistsDefault = FALSE
  DevToolGroupDefaults = FALSE
 INIT Init
-NEXT NextTools
-INVARIANTS C40_Unchanged
+NEXT NextStore
+INVARIANTS C17_SameObs
 VIEW View
 CHECK_DEADLOCK FALSE
